@@ -335,10 +335,10 @@ type ObsOut struct {
 }
 
 type jobCtx struct {
-	res      *JobResult
-	reached  map[string]bool
-	assumes  map[string]bool
-	chooseN  int
+	res     *JobResult
+	reached map[string]bool
+	assumes map[string]bool
+	chooseN int
 }
 
 // Finding is an open known finding: obligation label (with optional job prefix) and region tags.
